@@ -235,6 +235,7 @@ def run(ctx):
                '%s:%d' % (sts['file'], sts['line']))
 
     r26_6(ctx)
+    r26_7(ctx)
 
     # ---- R26.4 ------------------------------------------------------------------------------------------------------
     sar = [f for f in F.all_fns() if f['file'] == 'lib/sarifreport.cpp' and F.body(f) is not None]
@@ -360,3 +361,47 @@ def r26_6(ctx):
                ('the duplicate filter of StdLogger::reportErr %s: two findings can be distinct in one format and collapsed in another, so text, XML and SARIF '
                 'no longer carry the same findings' % ('computes its key from Settings::outputFormat' if dep else 'is guarded by a condition on the output format')),
                '%s:%s' % (f['file'], x['l']))
+
+
+def r26_7(ctx):
+    """R26.7  per-result fields come from the finding itself: in SarifReport::serializeResults the value stored under "level" (and "locations", "message") is computed
+    from the current finding - by passing it to a helper or reading its members - not looked up by rule id.  A rule id does not determine the severity (one id is
+    reported with several severities), so a per-rule lookup gives later findings the level of the first one."""
+    F = ctx.facts
+    ctx.rule('R26.7', 'SARIF result fields are computed from the finding, not looked up by rule id')
+    f = F.one('SarifReport::serializeResults')
+    body = F.body(f)['body']
+    loop = next((x for x in walk(body) if x.get('k') == 'CXXForRangeStmt' and x.get('var') is not None), None)
+    if loop is None:
+        raise AnalysisBroken('SarifReport::serializeResults: loop over the findings not found')
+    fv = loop['var']['di']
+    n = 0
+    for x in walk(loop.get('body') or {}):
+        if x.get('k') == 'CXXOperatorCallExpr' and x.get('op') == '=' and len(x.get('c', ())) >= 3:
+            lhs = x['c'][1]
+            key = None
+            for y in walk(lhs):
+                if y.get('k') == 'CXXOperatorCallExpr' and y.get('op') == '[]':
+                    key = next((z.get('v') for z in walk(y) if z.get('k') == 'StringLiteral'), None)
+            if key not in ('level', 'locations'):
+                continue
+            n += 1
+            rhs = x['c'][2]
+            whole = False      # the finding object itself is an argument of a call
+            members = set()
+            for y in walk(rhs):
+                if y.get('k') in ('CallExpr', 'CXXMemberCallExpr'):
+                    for a in call_args(y):
+                        a0 = strip(a)
+                        while a0 is not None and a0.get('k') == 'ImplicitCastExpr' and a0.get('c'):
+                            a0 = a0['c'][0]
+                        if a0 is not None and a0.get('k') == 'DeclRefExpr' and a0.get('di') == fv:
+                            whole = True
+                if y.get('k') == 'MemberExpr' and y.get('dk') == 'Field' and any(z.get('di') == fv for z in walk(y)):
+                    members.add((y.get('n') or '').split('::')[-1])
+            ok = whole or bool(members - {'id'})
+            ctx.ob('R26.7', 'result-field:%s' % key, ok, ('"%s" of a SARIF result is computed from the finding' % key) if ok else
+                   ('"%s" of a SARIF result is derived only from %s (line %s): findings that share an id but differ in severity / location get the value of another finding, '
+                    'so the SARIF report no longer carries the same levels as the text and XML output' % (key, sorted(members) or 'data that is not the finding', x['l'])),
+                   '%s:%s' % (f['file'], x['l']))
+    ctx.floor('R26.7 per-result fields checked', n, 2)
